@@ -471,6 +471,9 @@ pub fn corpus() -> Vec<&'static str> {
     "if null then 1 else 2",
     "for x in [1,2], x in [3,4] return x",
     "for i in 3..1 return i",
+    "{f: function(a, b) external {java: {class: \"c\", method signature: \"m\"}}, r: 1}.r",
+    "[function(a) external {java: {class: \"c\", method signature: \"m\"}}, 2][2]",
+    "{f: function() external {pmml: {document: \"d\", model: \"m\"}}, g: function(x) x + 1, r: g(2)}.r",
     "for i in 1.0..3.00 return i",
     "for i in 1.5..3 return i",
     "for i in -1.0..1 return i",
